@@ -96,10 +96,16 @@ def run_primed(t, kind, n, witness, primed, ops, y):
     for lbl in primed:
         prime(u.nodes[lbl])
     for op in ops:
+        if op and op[0] == "fault":
+            u.arm(op[2], op[3])
+            op = op[1]
+            t.c["faulted_ops_in_histories"] += 1
         try:
             u.apply(op)
         except Exception:  # noqa
             t.c["refused_ops"] += 1
+        u.raise_at = frozenset()
+        u.persist = None
     nodes = [u.nodes[l] for l in u.labels]
     idm = tree.IdMap(nodes)
     # the model is read AFTER the isolated query: reading .parent/.children of all nodes first must not matter
@@ -142,7 +148,23 @@ def _cmp_raw(raw, m, i):
     return [("%s(%d)" % (k, i), exp[k], raw[k]) for k in exp if exp[k] != raw[k]]
 
 
-def job_primed(kind, n, states, depth2):
+_HC = {}
+
+
+def hook_count(kind, n, witness, op):
+    key = (kind, witness, op)
+    if key not in _HC:
+        u = forest.rebuild(kind, n, witness)
+        u.arm()
+        try:
+            u.apply(op)
+        except Exception:  # noqa
+            pass
+        _HC[key] = len(u.log)
+    return _HC[key]
+
+
+def job_primed(kind, n, states, depth2, faults=True):
     t = core.Tally()
     labels = list(forest.LABELS[:n])
     ops = _ops2(n)
@@ -153,6 +175,11 @@ def job_primed(kind, n, states, depth2):
                 seqs = [(op1,)]
                 if depth2:
                     seqs += [(op1, op2) for op2 in ops if op2[0] == "setp"]
+                if faults and primed and (n <= 3 or len(primed) in (1, n)):
+                    # the same call aborted by a hook at every position ("values are correct immediately after any
+                    # mutation" - also after one that a post hook interrupted)
+                    for i in range(hook_count(kind, n, witness, op1)):
+                        seqs.append((("fault", op1, (i,), None),))
                 for seq in seqs:
                     t.c["transitions"] += 1
                     for y in labels:
@@ -323,5 +350,5 @@ def run(tier):
                 "values compared; non-trivial = multi-node tree / a mutation that changed the forest" % nmax,
         "bounds": bounds,
     }
-    return {"tally": t, "coverage": cov, "guards": ("nontrivial", "query_rounds", "refused_ops", "primed_histories"),
+    return {"tally": t, "coverage": cov, "guards": ("nontrivial", "query_rounds", "refused_ops", "primed_histories", "faulted_ops_in_histories"),
             "assumptions": ["bounded tree sizes and history depth 2 after any reachable forest"]}
